@@ -27,7 +27,7 @@ inductive Expr
   | deriv (s t : Nat)
   | bin (op : BinOp) (a b : Expr)
   | pow (a : Expr) (n : Int)
-  | opaque (refs : List Node)
+  | opq (refs : List Node)
 deriving Repr, Inhabited
 
 /-- `find_variables_and_derivatives([rhs])`, as a list in traversal order -/
@@ -37,7 +37,7 @@ def Expr.nodes : Expr → List Node
   | .deriv s t => [.deriv s t]
   | .bin _ a b => a.nodes ++ b.nodes
   | .pow a _ => a.nodes
-  | .opaque r => r
+  | .opq r => r
 
 /-- `rhs.atoms(Variable)` (the variables inside a derivative included) -/
 def Expr.vars (e : Expr) : List Nat := e.nodes.flatMap Node.atoms
@@ -69,6 +69,7 @@ def Expr.bindD (f : Nat → Nat → Except VErr Expr) : Expr → Except VErr Exp
     match a.bindD f with
     | .ok a' => .ok (.pow a' n)
     | .error e => .error e
+  | .opq _ => .error .unsupported       -- not arithmetic: outside the model (the real code may well evaluate it)
   | e => .ok e
 
 /-- a model state with the right-hand side of every equation (by token) -/
@@ -160,7 +161,7 @@ def evalE (m : Memo) : Expr → Except VErr Rat
     match evalE m a with
     | .ok p => (match powInt p n with | some r => .ok r | none => .error .arith)
     | .error e => .error e
-  | .opaque _ => .error .unsupported
+  | .opq _ => .error .unsupported
 
 /-- `{x: x.initial_value for x in self._ode_definition_map}` and `evaluated[time] = 0`
     (a state without initial value is left out: its evaluation then fails with `noInit`) -/
